@@ -1223,7 +1223,7 @@ class C30(Prop):
         return [A('ok'), canon_prog(t[1])]
 
     def canon_model(self, resp):
-        if _h(resp) == 'ok':
+        if _h(resp) == 'ok' and isinstance(resp[1], list):
             return [A('ok'), canon_prog(resp[1])]
         return resp
 
